@@ -250,6 +250,9 @@ fn for_each_set(first: usize, max: usize, f: &mut dyn FnMut(&[(usize, J)])) {
 /// Returns (number of variables, judgement set, description).
 pub fn ring_sets() -> Vec<(usize, Vec<(usize, J)>, String)> {
     let mut shapes: Vec<Vec<usize>> = Vec::new();
+    for a in 6..=16usize {
+        shapes.push(vec![a]);
+    }
     for a in 1..=5usize {
         shapes.push(vec![a]);
         for b in a..=5 {
@@ -373,7 +376,7 @@ impl Check for C14 {
                  budget, under the canonical order and under every single deviation at the order points, and compared with a \
                  reference congruence closure: termination, no panic, exactly one equality-free expression for every variable \
                  (incl. those allocated during merging), declared equalities honoured, no spurious equality, components of meeting \
-                 constructors unified when no class is conflicted. Plus the ring family: 1 to 3 rings of 1..5 classes each (member i = packed([member i+1]), one member \
+                 constructors unified when no class is conflicted. Plus the ring family: one ring of 1..16 classes or 2 to 3 rings of 1..5 classes each (member i = packed([member i+1]), one member \
                  also an address or a 160-bit word) next to 0, 1, 4 or 30 unrelated variables: cyclic evidence whose period is the least common multiple of the ring lengths (up to 60) must \
                  still end with one expression per variable. states = judgement sets; transitions = unifications executed",
                 max_size(tier)
